@@ -659,24 +659,55 @@ func mentionsHolder(t types.Type, d int) bool {
 }
 
 type chanOp struct {
-	fn   *ssa.Function
+	fn   *ssa.Function // the function that operates on the channel; for an operation made by an unexported helper that
+	// was handed the channel as an argument: the function that handed it over (via = that call)
 	kind string // send, recv, make, close
 	val  ssa.Value
 	ins  ssa.Instruction
+	via  ssa.CallInstruction
 }
 
 func chanOpsOn(P *Program, match func(chDesc string) bool) []chanOp {
 	var out []chanOp
-	for _, fn := range P.AllFuncs {
-		allInstrs(fn, func(i ssa.Instruction) {
+	var scan func(fn, owner *ssa.Function, via ssa.CallInstruction, depth int)
+	scan = func(scanned, owner *ssa.Function, via ssa.CallInstruction, depth int) {
+		fn := owner
+		n0 := len(out)
+		defer func() {
+			for k := n0; k < len(out); k++ {
+				if out[k].via == nil {
+					out[k].via = via
+				}
+			}
+		}()
+		// the channel handed to an unexported helper: the helper's operations are its caller's
+		if depth < 2 {
+			for _, c := range callsIn(scanned) {
+				g := staticCallee(c)
+				if g == nil || g == scanned || !inModuleFn(g) || g.Blocks == nil || g.Parent() != nil || (g.Object() != nil && g.Object().Exported()) {
+					continue
+				}
+				passes := false
+				for _, a := range callArgs(c) {
+					if _, isChan := a.Type().Underlying().(*types.Chan); isChan && match(desc(a)) {
+						passes = true
+					}
+				}
+				if passes {
+					cc := c
+					bindCall(cc, g, func() { scan(g, owner, cc, depth+1) })
+				}
+			}
+		}
+		allInstrs(scanned, func(i ssa.Instruction) {
 			switch x := i.(type) {
 			case *ssa.Send:
 				if match(desc(x.Chan)) {
-					out = append(out, chanOp{fn, "send", x.X, x})
+					out = append(out, chanOp{fn: fn, kind: "send", val: x.X, ins: x})
 				}
 			case *ssa.UnOp:
 				if x.Op == token.ARROW && match(desc(x.X)) {
-					out = append(out, chanOp{fn, "recv", x, x})
+					out = append(out, chanOp{fn: fn, kind: "recv", val: x, ins: x})
 				}
 			case *ssa.Select:
 				for idx, st := range x.States {
@@ -684,7 +715,7 @@ func chanOpsOn(P *Program, match func(chDesc string) bool) []chanOp {
 						continue
 					}
 					if st.Dir == types.SendOnly {
-						out = append(out, chanOp{fn, "send", st.Send, x})
+						out = append(out, chanOp{fn: fn, kind: "send", val: st.Send, ins: x})
 					} else {
 						// received value: extract #(2+k)
 						var rv ssa.Value
@@ -699,19 +730,22 @@ func chanOpsOn(P *Program, match func(chDesc string) bool) []chanOp {
 								rv = ex
 							}
 						}
-						out = append(out, chanOp{fn, "recv", rv, x})
+						out = append(out, chanOp{fn: fn, kind: "recv", val: rv, ins: x})
 					}
 				}
 			case *ssa.Store:
 				if mc, ok := x.Val.(*ssa.MakeChan); ok && match(desc(x.Addr)) {
-					out = append(out, chanOp{fn, "make", mc, x})
+					out = append(out, chanOp{fn: fn, kind: "make", val: mc, ins: x})
 				}
 			case *ssa.Call:
 				if isCallTo(x, "builtin:close") && match(desc(callArgs(x)[0])) {
-					out = append(out, chanOp{fn, "close", callArgs(x)[0], x})
+					out = append(out, chanOp{fn: fn, kind: "close", val: callArgs(x)[0], ins: x})
 				}
 			}
 		})
+	}
+	for _, fn := range P.AllFuncs {
+		scan(fn, fn, nil, 0)
 	}
 	return out
 }
@@ -781,6 +815,25 @@ func cacheProtocolRule(P *Program, R *Report) {
 				case *ssa.Phi:
 					walk(u)
 				case *ssa.Return:
+					if o.via != nil && u.Parent() != o.fn {
+						// returned by the helper that received it: the flow continues at the caller's use of the result
+						if call, isCall := o.via.(*ssa.Call); isCall {
+							for j, rv := range u.Results {
+								if rv != v {
+									continue
+								}
+								if len(u.Results) == 1 {
+									walk(call)
+								}
+								for _, rr := range referrersOf(call) {
+									if ex, isEx := rr.(*ssa.Extract); isEx && ex.Index == j {
+										walk(ex)
+									}
+								}
+							}
+						}
+						continue
+					}
 					uses = append(uses, "return")
 					if k != consume {
 						okFlow = false
